@@ -145,19 +145,23 @@ class Tree:
             self.meta["sp"] = spd
             self.tags.append("venv:" + venv)
             self.add(spd + "README.txt", "x")
+            if rnd.random() < 0.45:
+                lib = self.uniq("plainlib_")
+                t2, _ = self.module_text()
+                t, _ = self.module_text(imports=["from .fx2 import *"] if rnd.random() < 0.7 else [])
+                self.add(spd + lib + "/__init__.py", "")
+                self.add(spd + lib + "/fx.py", t)
+                if "fx2" in t:
+                    self.add(spd + lib + "/fx2.py", t2)
+                lib_import = "from %s.fx import *" % lib
+                self.lib_star = lib_import
+                self.tags.append("venv:library-imported")
             for _ in range(rnd.randint(0, 3)):
                 self.plugin_dist(spd)
             if rnd.random() < 0.4:
                 t, _ = self.module_text()
                 self.add(spd + "_pytest/" + rnd.choice(["tmpdir.py", "fixtures.py", "deep/a/b.py", "deep/a/b/c.py", "test_skip.py"]), t)
                 self.tags.append("venv:_pytest")
-            if rnd.random() < 0.4:
-                lib = self.uniq("plainlib_")
-                t, _ = self.module_text()
-                self.add(spd + lib + "/__init__.py", "")
-                self.add(spd + lib + "/fx.py", t)
-                lib_import = "from %s.fx import *" % lib
-                self.tags.append("venv:library-imported")
             for where in (["outside"] if rnd.random() < 0.35 else []) + (["inside"] if rnd.random() < 0.3 else []):
                 self.editable(spd, where)
         # conftests
@@ -167,7 +171,7 @@ class Tree:
             imports, plugins = [], None
             for _ in range(rnd.randint(0, 2)):
                 imports.append(self.helper_graph(d, dotted_pkg=None))
-            if lib_import and rnd.random() < 0.6:
+            if lib_import and rnd.random() < 0.75:
                 imports.append(lib_import)
             if rnd.random() < 0.3:
                 pm = self.uniq("plugmod_")
@@ -211,7 +215,11 @@ class Tree:
             self.add(spd + pk + "/__init__.py", "")
             imp = []
             if rnd.random() < 0.6:
-                th, _ = self.module_text(imports=["from .deeper import *"] if rnd.random() < 0.4 else [])
+                deeper_imports = ["from .deeper import *"] if rnd.random() < 0.4 else []
+                if getattr(self, "lib_star", None) and rnd.random() < 0.6:
+                    deeper_imports.append(self.lib_star)          # the library a conftest imports directly, reached through a longer chain
+                    self.tags.append("plugin-chain:reaches-imported-library")
+                th, _ = self.module_text(imports=deeper_imports)
                 self.add(spd + pk + "/helpers.py", th)
                 if "deeper" in th:
                     td, _ = self.module_text()
